@@ -48,6 +48,9 @@ async def scenario(loop, plan, out):
     mfg = {"burnable": netsim.FF8, "burnt": bytes.fromhex("a1a2a3a4a5a6a7a8"), "absent": b""}[cap["mfg"]]
     sim = netsim.NetSim(loop, v, nv3_eui64=cap["nv3"], mfg_eui64=mfg, have_token_cmds=cap["token_cmds"],
                         key_table_size=cap.get("key_table", 12))
+    if cap.get("nv3_custom") and sim.nv3 is not None:
+        # the NCP already carries a custom EUI64 from an earlier restore
+        sim.nv3[0x0000E12A] = bytes.fromhex(cap["nv3_custom"])
     ezsp = e.EZSP({"path": "/dev/null", "baudrate": 115200, "flow_control": None})
     sim.attach(ezsp)
     ezsp._switch_protocol_version(v)
@@ -76,6 +79,8 @@ async def scenario(loop, plan, out):
                  "other": zt.EUI64.deserialize(bytes.fromhex("c1c2c3c4c5c6c7c8"))[0]}[plan["node_ieee"]]
     node_info = zs.NodeInfo(nwk=zt.NWK(0), ieee=node_ieee, logical_type=zdo_t.LogicalType.Coordinator)
     out["eui_before"] = sim.eui64()
+    out["node_ieee_written"] = bytes(node_ieee.serialize())
+    out["rewritable"] = bool(cap["nv3"] and cap["token_cmds"] and "getTokenData" in sim.cls.COMMANDS)
     try:
         await asyncio.wait_for(app.write_network_info(network_info=network_info, node_info=node_info), 5000)
         out["write"] = None
@@ -114,7 +119,9 @@ def check(plan) -> Result:
             return r
     ni = plan["net"]
     rd = out["read"]
-    rewrote = out["eui_after"] != out["eui_before"]
+    rewrote = any((n == "setTokenData" and bytes(a.get("token_data", b"")) not in (b"", b"\xff" * 8)) or
+                  (n == "setMfgToken" and a.get("tokenId") is not None and a["tokenId"].name == "MFG_CUSTOM_EUI_64")
+                  for _, n, a in sim.log)
 
     def cmp(field, got, want):
         if got != want:
@@ -160,6 +167,11 @@ def check(plan) -> Result:
     for flag, name in ((0x0100, "HAVE_PRECONFIGURED_KEY"), (0x0200, "HAVE_NETWORK_KEY")):
         if not bm & flag:
             r.bad(f"C14:security-state:{name}-missing", f"bitmask 0x{bm:04X}; plan {plan}")
+    # node address: when the NCP's EUI64 is rewritable and the backup names one, the NCP must end up with it
+    if out["rewritable"] and plan["node_ieee"] != "unknown":
+        got_ieee = hx(out["node"].ieee.serialize())
+        cmp("node-ieee", got_ieee, hx(out["node_ieee_written"]))
+        cmp("ncp-eui64", hx(sim.eui64()), hx(out["node_ieee_written"]))
     # link keys as a set of (partner, key)
     want_keys = {(k["partner"], k["key"]) for k in ni["link_keys"]}
     got_keys = {(hx(k.partner_ieee.serialize()), hx(k.key.serialize())) for k in rd.key_table}
@@ -175,6 +187,8 @@ def check(plan) -> Result:
     r.cls(vt)
     if rewrote:
         r.cls("eui64-rewritten")
+    if plan["cap"].get("nv3_custom"):
+        r.cls("ncp-already-had-custom-eui64")
     if ni["link_keys"]:
         r.cls("link-keys")
     if ni["children"]:
@@ -216,7 +230,7 @@ def plans(draw, versions=tuple(range(4, 15))):
         "tc_addr": draw(st.one_of(st.none(), eui8)),
     }
     cap = {"nv3": draw(st.booleans()), "mfg": draw(st.sampled_from(["burnable", "burnt", "absent"])), "token_cmds": draw(st.booleans()),
-           "key_table": ktab}
+           "key_table": ktab, "nv3_custom": draw(st.sampled_from([None, None, "c1c2c3c4c5c6c7c8", "d1d2d3d4d5d6d7d8"]))}
     return {"v": v, "net": net, "cap": cap, "node_ieee": draw(st.sampled_from(["same", "other", "other", "unknown"])),
             "allow_burn": draw(st.booleans())}
 
